@@ -2,6 +2,7 @@ import SC.Model.Algo
 import SC.Model.Std
 import SC.Gen.Consts
 import SC.Gen.AsmFacts
+import SC.Model.AsmLink
 /-!
 Line-protocol driver: one op per line on stdin, one answer per line on stdout.
 
@@ -179,19 +180,19 @@ def runM (fn : String) (cfg : A.Cfg) (args : List String) : String :=
   | "LastIndexByte" => toString (Std.lastIndexByte a1 c2)
   | _ => "-"
 
-/-- `asm <body> <avx2 0|1> <page offset> <poison byte> <data hex> <needle> [<observed>]`: run the instruction-level model of a
-    kernel body (regenerated program, `Asm.run`) from its first instruction on the given bytes placed at the given offset
-    within a page, every other byte of memory being `poison`; registers and lanes not set by the calling convention hold
-    junk.  Answer: `<stored result>\t<1 if every load stays within pages holding argument bytes>\t<number of loads>`. -/
+/-- `asm <entry point> <avx2 0|1> <page offset> <poison byte> <data hex> <needle> [<observed>]`: run the instruction-level model of an
+    assembly entry point (regenerated ABI wrapper, then the kernel body it tail-calls: `Asm.call`) on the given bytes placed at the given offset
+    within a page, every other byte of memory being `poison`; the arguments are in the caller's frame (the needle's upper bytes junk), every register and lane holds junk.  Answer: `<stored result>\t<1 if every load stays within pages holding argument bytes>\t<number of loads>`. -/
 def runAsm (args : List String) : String :=
   match args with
   | body :: avx :: off :: poison :: hex :: needle :: _ =>
     let prog? : Option Asm.Prog := match body with
-      | "indexbytebody" => some Gen.Asm.body_indexbytebody
-      | "indexbytebodyCase" => some Gen.Asm.body_indexbytebodyCase
-      | "indexByteBodyNonASCII" => some Gen.Asm.body_indexByteBodyNonASCII
-      | "countbody" => some Gen.Asm.body_countbody
-      | "countbodyCase" => some Gen.Asm.body_countbodyCase
+      | "IndexByte" => some Gen.Asm.wrap_IndexByte
+      | "IndexByteString" => some Gen.Asm.wrap_IndexByteString
+      | "Count" => some Gen.Asm.wrap_Count
+      | "CountString" => some Gen.Asm.wrap_CountString
+      | "IndexByteNonASCII" => some Gen.Asm.wrap_IndexByteNonASCII
+      | "IndexNonASCII" => some Gen.Asm.wrap_IndexNonASCII
       | _ => none
     match prog? with
     | none => "bad-body\t0\t0"
@@ -202,12 +203,14 @@ def runAsm (args : List String) : String :=
       let pz := UInt8.ofNat poison.toNat!
       let c := needle.toNat!
       let st : Asm.St :=
-        { r := fun q => match q with
-            | .SI => base | .BX => len | .AX => 0xABCD00 + c % 256 | _ => 0xDEADBEEF12345
-          x := fun _ _ => 0xEE, y := fun _ _ => 0xEE, zf := true, cf := true, lt := true, avx2 := avx == "1"
+        { r := fun _ => 0xDEADBEEF12345
+          x := fun _ _ => 0xEE, y := fun _ _ => 0xEE, zf := true, cf := true, lt := true, avx2 := avx == "1", popcnt := true
+          args := fun n => if n == "b_base" || n == "s_base" then base else if n == "b_len" || n == "s_len" then len
+                           else if n == "c" then 0xABCD00 + c % 256 else 0x7F00
+          tail := none
           mem := fun i => if base ≤ i ∧ i < base + len then data[i - base]! else pz
           loads := [], out := none }
-      let fin := Asm.run prog (15 * (len + 1) + 80) (Asm.block prog "entry") st
+      let fin := Asm.call prog (15 * (len + 1) + 80) st
       let safe := fin.loads.all (fun ld =>
         decide (0 < len) && decide (0 < ld.2) && decide (base / 4096 ≤ ld.1 / 4096) && decide ((ld.1 + ld.2 - 1) / 4096 ≤ (base + len - 1) / 4096))
       let o := match fin.out with | some v => toString v | none => "none"
